@@ -511,7 +511,8 @@ impl ParserListener for Screen {
             }
 
             // Move lines within margins down
-            for y in (top..=bottom).rev() {
+            // The line at the bottom margin is pushed out.
+            for y in (top..bottom).rev() {
                 let line = self.buffer.entry(y).or_insert(HashMap::new());
                 new_buffer.insert(y + 1, line.clone());
             }
